@@ -35,6 +35,8 @@ def fault_cases(tabs, nkeys, rng, sample=None):
         for i, t in enumerate(tabs):
             for pos in range(len(t) + 1):      # incl. the position where the iterator would report Done
                 faults.append({"kind": kind, "input": i, "inpos": pos, "outpos": -1})
+            for pos in range(len(t)):          # the input's data file ends at the record boundary in front of record pos
+                faults.append({"kind": kind, "input": i, "inpos": pos, "outpos": -1, "cut": True})
         if kind != "superscan":
             for pos in range(total_out):
                 faults.append({"kind": kind, "input": -1, "inpos": -1, "outpos": pos})
